@@ -168,7 +168,7 @@ def _keylines(opts):
 
 
 _STAMP = [re.compile(rb"\d{1,2}[./]\d{1,2}[./]\d{2,4}"), re.compile(rb"\d{1,2}:\d{2}:\d{2}"),
-          re.compile(rb"\d+[.,]\d\d seconds assembly time"), re.compile(rb"\d+[.,]\d\d Sekunden Assemblierzeit")]
+          re.compile(rb"(?:\d+ (?:hours?|minutes?|Stunden?|Minuten?), )*\d+[.,]\d\d (?:seconds?|Sekunden?) (?:assembly time|Assemblierzeit)")]
 
 
 def mask(data):
